@@ -127,7 +127,7 @@ func Gen(seed uint64, tier string) any {
 	sc.Start2 = core.Chance(r, 20)
 	sc.Early = !sc.Start2 && core.Chance(r, 12)
 	if !sc.Start2 && !sc.Early && core.Chance(r, 12) {
-		sc.FailStart = core.Pick(r, "bogus", "tcp-tls", "sockopt")
+		sc.FailStart = core.Pick(r, "bogus", "tcp-tls", "sockopt", "noreader")
 	}
 	sc.UDPSock = sc.Transport == "udp" && core.Chance(r, 50)
 	sc.Spare = sc.Transport == "udp" && core.Chance(r, 15)
@@ -290,6 +290,8 @@ type run struct {
 	res *core.Result
 
 	onUDPSock bool
+	stuckIn   string // set while a call that must not block is in progress
+	trialOver bool   // the start that cannot succeed, and the Shutdown that follows it, are over
 
 	ops        map[string]*opState
 	opList     []*opState
@@ -388,6 +390,9 @@ func (x *run) ServeDNS(w dns.ResponseWriter, r *dns.Msg) {
 
 // --- lifecycle tasks
 
+// streamOnlyReader hides the PacketConnReader side of the reader it wraps.
+type streamOnlyReader struct{ dns.Reader }
+
 var errSockopt = errors.New("setsockopt: operation not permitted")
 
 type serveTask struct {
@@ -410,7 +415,16 @@ func (s *serveTask) RunEvent(time.Time) {
 	if s.c.name == "start-1" && x.sc.FailStart != "" && !x.sc.Start2 && !x.sc.Early {
 		// a start that cannot succeed must leave the server stopped
 		var err error
-		if x.sc.FailStart == "sockopt" {
+		if x.sc.FailStart == "noreader" {
+			// a generic PacketConn with a decorated reader that cannot read from one:
+			// the serve call gives up at once (on a socket of its own, which it closes)
+			keepPC, keepL, keepDR := x.srv.PacketConn, x.srv.Listener, x.srv.DecorateReader
+			x.srv.PacketConn, x.srv.Listener = x.n.ListenPacket(), nil
+			x.srv.DecorateReader = func(r dns.Reader) dns.Reader { return streamOnlyReader{r} }
+			err = x.srv.ActivateAndServe()
+			x.srv.PacketConn, x.srv.Listener, x.srv.DecorateReader = keepPC, keepL, keepDR
+			k.Bump("fault.start_with_unusable_reader")
+		} else if x.sc.FailStart == "sockopt" {
 			// the socket refuses the options the UDP branch needs
 			x.uc.OptsErr = errSockopt
 			err = x.srv.ActivateAndServe()
@@ -427,7 +441,10 @@ func (s *serveTask) RunEvent(time.Time) {
 			x.res.Fail("S5", "impossible-start-succeeded", "a start that cannot succeed (%s) returned nil", x.sc.FailStart)
 		}
 		k.Unlock()
-		if serr := x.srv.Shutdown(); serr == nil || serr.Error() != "dns: server not started" {
+		x.stuckIn = fmt.Sprintf("Shutdown after a start that failed (%s: %v)", x.sc.FailStart, err)
+		serr := x.srv.Shutdown()
+		x.stuckIn = ""
+		if serr == nil || serr.Error() != "dns: server not started" {
 			k.Lock()
 			x.res.Fail("S5", "shutdown-after-failed-start", "after a ListenAndServe that failed (%v), Shutdown returned %v instead of reporting that the server is not started", err, serr)
 			k.Unlock()
@@ -435,6 +452,9 @@ func (s *serveTask) RunEvent(time.Time) {
 	}
 start:
 	k.Lock()
+	if s.c.name == "start-1" {
+		x.trialOver = true
+	}
 	s.c.callSeq, s.c.callT = k.Seq, time.Now()
 	k.EffectLocked("call " + s.c.name)
 	k.Unlock()
@@ -515,6 +535,13 @@ func (s startSettled) Holds() bool {
 func (l *lifeTask) RunEvent(time.Time) {
 	x, k, sc := l.x, l.x.k, l.x.sc
 	defer x.fin(&x.lifeFin)
+	if sc.FailStart == "noreader" && !sc.Start2 && !sc.Early {
+		// that failed start marks the server as started for a moment; a Shutdown
+		// overlapping it would be a shutdown of another start than the one under test
+		if !k.Wait("life.trial", 0, common.Flag{V: &x.trialOver}, 0) {
+			return
+		}
+	}
 	if sc.Early {
 		c := x.newCall("shutdown", "shutdown-early")
 		x.shutdown(c, "plain", 0)
@@ -882,6 +909,10 @@ func (x *run) judge(outcome string) {
 	case kernel.Quiescent:
 		// S9: nothing can happen any more, yet a lifecycle call or a client
 		// has not finished
+		if x.stuckIn != "" {
+			res.Fail("S5", "shutdown-blocks-after-failed-start", "%s never returned: shutting down a server that is not started blocks instead of returning an error", x.stuckIn)
+			return
+		}
 		res.Fail("S9", "deadlock", "simulated deadlock: nothing enabled, nothing pending; unfinished: %s; parked: %v", x.unfinished(), k.Parked())
 		return
 	}
